@@ -254,67 +254,60 @@ def rule_nullstrict(P) -> RuleResult:
 # ----------------------------------------------------------------------
 # R-DIVGUARD
 
-def _zero_guarded(fi: FuncInfo):
-    """-> list of problems: divisions by the 2nd parameter not protected by a zero test returning None."""
-    params = fi.params
-    if len(params) < 2:
+def _operand_syms(fi):
+    from ..symex import Sym as _S, T as _T
+    # operands are attribute reads of an opaque record: `x is None` stays a term instead of being decided
+    return [_T('attr', (_S('OPERANDS'), n)) for n in ('x', 'y', 'z')][:len(fi.params)]
+
+
+def _zero_oracle(Y, zero):
+    """Answers every zero test of the divisor Y (== 0, != 0, truthiness, either operand order) for one case."""
+    from ..symex import T as _T
+
+    def is_zero(v):
+        return isinstance(v, (int, float)) and not isinstance(v, bool) and v == 0
+
+    def oracle(term, ex):
+        if term == Y:
+            return not zero
+        if isinstance(term, _T) and term.op == 'cmp' and term.args[0] in ('==', '!='):
+            l, r = term.args[1], term.args[2]
+            if (l == Y and is_zero(r)) or (r == Y and is_zero(l)):
+                return zero == (term.args[0] == '==')
+        return None
+    return oracle
+
+
+_DIV_CALLS = ('operator.truediv', 'operator.mod', 'operator.floordiv', 'divmod')
+
+
+def _zero_guarded(P, fi: FuncInfo):
+    """-> list of problems, decided on the term interpreter: with a zero divisor (second operand) every path returns NULL and none
+    evaluates a division by it; with a non-zero divisor the operation is computed."""
+    from ..symex import Engine as _E, show as _sh, contains as _has
+    if len(fi.params) < 2:
         return ['implementation does not take two operands']
-    y = params[1]
+    ops = _operand_syms(fi)
+    Y = ops[1]
+    env = dict(zip(fi.params, ops))
     problems = []
-    divs = []
 
-    def uses_y(e):
-        return any(isinstance(n, ast.Name) and n.id == y for n in ast.walk(e))
-
-    def test_facts(test):
-        """-> (fact if true, fact if false) about y: 'zero' | 'nonzero' | None"""
-        if isinstance(test, ast.Compare) and len(test.ops) == 1 and isinstance(test.left, ast.Name) and test.left.id == y \
-                and isinstance(test.comparators[0], ast.Constant) and test.comparators[0].value == 0 \
-                and not isinstance(test.comparators[0].value, bool):
-            if isinstance(test.ops[0], ast.Eq):
-                return 'zero', 'nonzero'
-            if isinstance(test.ops[0], ast.NotEq):
-                return 'nonzero', 'zero'
-        if isinstance(test, ast.Name) and test.id == y:
-            return 'nonzero', 'zero'
-        if isinstance(test, ast.UnaryOp) and isinstance(test.op, ast.Not):
-            a, b = test_facts(test.operand)
-            return b, a
-        return None, None
-
-    def terminates(body):
-        return bool(body) and isinstance(body[-1], (ast.Return, ast.Raise))
-
-    def walk(body, fact):
-        for st in body:
-            if isinstance(st, ast.If):
-                t, f = test_facts(st.test)
-                walk(st.body, t or fact)
-                walk(st.orelse, f or fact)
-                if t == 'zero':
-                    # the zero branch must produce NULL
-                    rets = [n for n in ast.walk(ast.Module(body=st.body, type_ignores=[])) if isinstance(n, ast.Return)]
-                    if not terminates(st.body) or not rets or not all(r.value is None or is_none(r.value) for r in rets):
-                        problems.append('the zero-divisor branch does not return NULL')
-                if terminates(st.body) and f:
-                    fact = f
-                elif st.orelse and terminates(st.orelse) and t:
-                    fact = t
-                continue
-            for n in ast.walk(st):
-                if isinstance(n, ast.BinOp) and isinstance(n.op, (ast.Div, ast.FloorDiv, ast.Mod)) and uses_y(n.right):
-                    divs.append(n)
-                    if fact != 'nonzero':
-                        problems.append(f'`{ast.unparse(n)}` can divide by zero: no dominating `{y} == 0 -> return None` test')
-                if isinstance(n, ast.Call):
-                    d = ast.unparse(n.func)
-                    if d in ('operator.truediv', 'operator.mod', 'operator.floordiv', 'divmod') and len(n.args) > 1 \
-                            and uses_y(n.args[1]):
-                        divs.append(n)
-                        if fact != 'nonzero':
-                            problems.append(f'`{ast.unparse(n)}` can divide by zero')
-    walk(body_without_docstring(fi.node), None)
-    if not divs:
+    def divisions(p):
+        out = [f'{_sh(e[2])} {e[1]} {_sh(e[3])}' for e in p.events if e[0] == 'div' and _has(e[3], Y)]
+        out += [f'{e[1]}({", ".join(_sh(a) for a in e[2])})' for e in p.events
+                if e[0] == 'call' and e[1] in _DIV_CALLS and len(e[2]) > 1 and _has(e[2][1], Y)]
+        return out
+    for p in _E(P, oracle=_zero_oracle(Y, True)).paths(fi, dict(env)):
+        d = divisions(p)
+        if d:
+            problems.append(f'`{d[0]}` is evaluated when the divisor is zero: no `divisor == 0 -> NULL` test comes before it')
+        elif p.outcome != 'return' or p.value is not None:
+            problems.append(f'with a zero divisor the implementation must return NULL; it '
+                            f'{"returns " + _sh(p.value)[:50] if p.outcome == "return" else p.outcome}')
+    divided = False
+    for p in _E(P, oracle=_zero_oracle(Y, False)).paths(fi, dict(env)):
+        divided = divided or bool(divisions(p))
+    if not divided:
         problems.append('no division/modulo by the second operand found in the implementation')
     return problems
 
@@ -332,7 +325,7 @@ def rule_divguard(P) -> RuleResult:
             res.fail(f'operator:{o.label}', 'unguarded', f'{o.label} is implemented by {o.impl}, which raises on a zero divisor')
             continue
         if o.impl.fq not in seen:
-            seen[o.impl.fq] = _zero_guarded(o.impl)
+            seen[o.impl.fq] = _zero_guarded(P, o.impl)
         probs = seen[o.impl.fq]
         if probs:
             res.fail(f'operator:{o.label}', 'unguarded', f'{o.label} ({o.impl.name}): {probs[0]}', loc(o.impl))
@@ -402,25 +395,69 @@ class Term:
     pass
 
 
-def _term(fi: FuncInfo):
-    """Symbolic result term of a straight-line implementation (after an optional zero guard)."""
-    params = fi.params
-    env = {p: ('p', i) for i, p in enumerate(params)}
-    result = None
-    for st in body_without_docstring(fi.node):
-        if isinstance(st, ast.If):
-            # guards that return a constant are not part of the operation
-            if all(isinstance(s, ast.Return) for s in st.body) and not st.orelse:
-                continue
+def _term(P, fi: FuncInfo, kind=None):
+    """Result term of an operator implementation, computed on the term interpreter for non-NULL operands (and a non-zero divisor):
+    every path must return the same term.  -> old tuple form, or None when the paths disagree / the shape is not understood."""
+    from ..symex import Engine as _E
+    ops = _operand_syms(fi)
+    env = dict(zip(fi.params, ops))
+    oracle = _zero_oracle(ops[1], False) if len(ops) > 1 and kind in ('Div', 'Mod') else None
+    vals = []
+    for p in _E(P, oracle=oracle).paths(fi, dict(env)):
+        if p.outcome != 'return' or p.decisions:
             return None
-        if isinstance(st, ast.Assign) and len(st.targets) == 1 and isinstance(st.targets[0], ast.Name):
-            env[st.targets[0].id] = _tx(st.value, env, fi)
-            continue
-        if isinstance(st, ast.Return):
-            result = _tx(st.value, env, fi)
-            break
-        return None
-    return result
+        v = _from_sx(p.value, ops)
+        if v not in vals:
+            vals.append(v)
+    return vals[0] if len(vals) == 1 else None
+
+
+def _from_sx(v, ops):
+    """symex term -> the tuple form `_expected_terms` is written in."""
+    from ..symex import T as _T, Sym as _S
+    if v in ops:
+        return ('p', ops.index(v))
+    if v is None or isinstance(v, (bool, int, str, float)):
+        return ('const', v)
+    f = lambda x: _from_sx(x, ops)
+    if isinstance(v, _T):
+        a = v.args
+        if v.op == 'bin':
+            return ('bin', a[0], f(a[1]), f(a[2]))
+        if v.op == 'cmp':
+            l, r = f(a[1]), f(a[2])
+            # `re.search(..) is not None` is the truth of the match object
+            if a[0] in ('is not', 'is') and r == ('const', None) and l[0] == 're.search':
+                return ('truth', l) if a[0] == 'is not' else ('not', ('truth', l))
+            return ('bin', a[0], l, r)
+        if v.op == 'neg':
+            return ('neg', f(a[0]))
+        if v.op == 'not':
+            return ('not', f(a[0]))
+        if v.op == 'attr':
+            return ('attr', f(a[0]), a[1])
+        if v.op == 'global':
+            return ('name', a[0])
+        if v.op == 'call':
+            d, args, kws = a[0], [f(x) for x in a[1]], tuple(sorted((k, f(x)) for k, x in a[2]))
+            if d in _OPERATOR_MODULE and len(args) == 2:
+                return ('bin', _OPERATOR_MODULE[d], args[0], args[1])
+            if d == 'operator.contains' and len(args) == 2:
+                return ('bin', 'in', args[1], args[0])
+            if d == 'operator.neg' and len(args) == 1:
+                return ('neg', args[0])
+            if d == 'operator.not_' and len(args) == 1:
+                return ('not', args[0])
+            if d == 'bool' and len(args) == 1:
+                return ('truth', args[0])
+            if d == 're.search' and len(args) >= 2:
+                return ('re.search', args[0], args[1])      # flags are not constrained
+            if d == 'datetime.timedelta' and not args and len(kws) == 1 and kws[0][0] == 'days':
+                return ('days', kws[0][1])
+            if d in ('Decimal', 'decimal.Decimal') and len(args) == 1:
+                return ('Decimal', args[0])
+            return ('call', d if isinstance(d, str) else repr(d), tuple(args), kws)
+    return ('expr', repr(v))
 
 
 _OPNAMES = {ast.Add: '+', ast.Sub: '-', ast.Mult: '*', ast.Div: '/', ast.Mod: '%', ast.FloorDiv: '//'}
@@ -555,7 +592,7 @@ def rule_opsem(P) -> RuleResult:
             res.info(f'new-instance: operator kind {o.kind} has no semantics on record')
             continue
         if isinstance(o.impl, FuncInfo):
-            term = _term(o.impl)
+            term = _term(P, o.impl, o.kind)
             where = loc(o.impl)
         elif isinstance(o.impl, str):
             term = _external_term(o.impl, len(o.intypes))
